@@ -17,6 +17,7 @@ import (
 	"verif/harness/internal/c12"
 	"verif/harness/internal/c13"
 	"verif/harness/internal/rpack"
+	"verif/harness/internal/frame"
 	"verif/harness/internal/c14"
 	"verif/harness/internal/c15"
 	"verif/harness/internal/c16"
@@ -39,6 +40,8 @@ func main() {
 		os.Exit(c03.Main(os.Args[2:]))
 	case "c12":
 		os.Exit(c12.Main(os.Args[2:]))
+	case "frame":
+		os.Exit(frame.Main(os.Args[2:]))
 	case "rpack":
 		os.Exit(rpack.Main(os.Args[2:]))
 	case "c13":
